@@ -1,6 +1,20 @@
 --------------------------- MODULE SchemaObjects ---------------------------
+(* Structures of the Query / Discover Versions operations (KMIP 1.x        *)
+(* sections 2.1.9, 2.1.18-2.1.21, 4.25, 4.26; KMIP 2.0 sections 6.1.15,    *)
+(* 6.1.37, 7.x).                                                           *)
 EXTENDS KmipSchemaCore
-SchemaObjectsT == [ x \in {} |-> <<>> ]
-ClassTagObjects == [ x \in {} |-> "" ]
-ClassSinceObjects == [ x \in {} |-> <<10, 20>> ]
+
+SchemaObjectsT == [
+  \* KMIP 2.0 adds Extension Enumeration, Extension Attribute, Extension Parent Structure Tag and
+  \* Extension Description; the implementation has no constructor argument for them: left out.
+  \* (Unsure whether 2.0 retypes Extension Type as an Item Type enumeration; Integer as in 1.x and the implementation.)
+  ExtensionInformation |-> <<
+      Req("extension_name", "EXTENSION_NAME", "text"),
+      Opt("extension_tag", "EXTENSION_TAG", "int"),
+      Opt("extension_type", "EXTENSION_TYPE", "int") >>
+]
+ClassTagObjects == [
+  ExtensionInformation |-> "EXTENSION_INFORMATION" ]
+ClassSinceObjects == [
+  ExtensionInformation |-> <<11, 20>> ]
 =============================================================================
